@@ -39,14 +39,13 @@ def twin(models=None, **kw):
 def solve(fs, timeout_s=60, pc=(), logic=None):
     """one query: returns (status, model, seconds)"""
     s = z3.Solver() if logic is None else z3.SolverFor(logic)
-    s.set('timeout', int(timeout_s * 1000))
     seed = int(os.environ.get('VERIF_SEED', '0') or 0)
     if seed:
         s.set('random_seed', seed % (2 ** 31))
     s.add(*pc)
     s.add(*fs)
     t = time.time()
-    r = str(s.check())
+    r = core.timed_check(s, int(timeout_s * 1000))
     dt = time.time() - t
     core.STATS['queries'] += 1
     core.STATS['solver_s'] += dt
